@@ -25,12 +25,17 @@ Proved here, for every machine state / dictionary / fuel:
   — the opcodes the compiler emits for the same values written as literals — and only constants added to the
   dictionary. This is "P[#( e #)] = P[values of e]" step by step; the composition into a statement about the two
   token lists (which needs the syntactic matching of `#(`/`#)`, themselves dictionary words) is decided by the
-  correspondence and the inline oracle, as is "eval = compile; run".
+  correspondence and the inline oracle.
+* `eval_is_compile_then_run` — for an interpreter at rest, every source and every fuel: `eval src` gives the same
+  answer and the same session as `compile src` followed by `run` (Proofs/SessionBase.lean: reading a source never
+  looks at the base context's mode or stack floor, whatever meta blocks it contains; Proofs/VMCtx.lean, generated:
+  the VM never reads the bookkeeping fields of a context; Proofs/SessionEval.lean).
 Known finding (listed in known_findings.json): a block nested in another block shares that block's stack —
 pinned by the existing suite (`test_meta_stack`), contradicting "sealed" for that position.
 -/
 import XehModel.Proofs.SessionUnwind
 import XehModel.Proofs.SessionBlock
+import XehModel.Proofs.SessionEval
 
 namespace Xeh.C11
 open Xeh Xeh.Mach Xeh.Compile Xeh.Session Xeh.Session.Sess
@@ -203,6 +208,21 @@ theorem meta_block_closes_clean {s0 s t : Sess} (fuel : Nat) (h0 : s0.m.ctx.mode
     (∃ vs : List Cell, t.m.code = s0.m.code ++ vs.map Mach.loadValueOp) ∧
     hidOf t.m.dict s0.m.dict.length = hidOf s.m.dict s0.m.dict.length :=
   block_close fuel h0 h hbase hnp hc
+
+/-! ### `eval` = `compile`, then `run` -/
+
+/-- **`eval src` is `compile src` followed by `run`.** For every interpreter at rest (in eval mode, no program in
+    flight: `AtRest`), every token list — meta blocks at any position, nested, definitions, anything — and every fuel:
+    the two give the same answer (built and run to the end; rejected with the same error; failed at run time with the
+    same error; the model's `unsupported` / `timeout` alike) and leave the same session: identical when the source is
+    rejected or runs to its end; identical up to the bookkeeping fields of the current context (`SameC`) when the run
+    fails, because `eval` then leaves the failed source's own context current (`context_close` returns early). -/
+theorem eval_is_compile_then_run (fuel : Nat) (toks : List Tok) (s : Sess) (idle : Idle s) (rest : AtRest s) :
+    EvalR (s.buildSource fuel .eval toks) (compileThenRun fuel toks s) :=
+  eval_eq_compile_run fuel toks s idle rest
+
+/-- the empty session is at rest -/
+example : AtRest ({} : Sess) := ⟨rfl, rfl, rfl, rfl, rfl⟩
 
 /-- the hypotheses are satisfiable: the empty session is idle, and a source with a meta block compiles -/
 example : Idle ({} : Sess) := ⟨⟨Nat.le_refl _, Nat.le_refl _, Nat.le_refl _, Nat.le_refl _⟩, Nat.le_refl _, rfl⟩
